@@ -31,11 +31,25 @@ func specAddr(netID uint32, old uint32) (addr uint32, typ uint, prefixLen uint, 
 }
 
 func runC11(r *engine.Run) {
-	r.Rule = "E1 product enumeration: NetID x DevAddr through SetAddrPrefix/IsNetID/NwkID/NetIDType against the addressing rule written from the specification (quick: per type every value of the low (NwkID width+2) ID bits with the remaining ID bits all-zero and all-one; thorough: all 2^24 NetIDs), each with 16 previous addresses; IsNetID additionally on every single-bit flip of the result. Identifier representations: position-distinct values and per-position byte sweeps through text/binary/Value/Scan, and wrong-length / malformed inputs. Non-trivial: a (NetID, DevAddr) pair whose result was compared with the rule; every pair is distinct by construction of the product."
+	r.Rule = "E1 product enumeration: NetID x DevAddr through SetAddrPrefix/IsNetID/NwkID/NetIDType against the addressing rule written from the specification (quick: per type every value of the low (NwkID width+2) ID bits with the remaining ID bits all-zero and all-one; thorough: all 2^24 NetIDs), each with 40 previous addresses (every type prefix x four fillings of the remaining bits); IsNetID additionally on every single-bit flip of the result. Identifier representations: position-distinct values and per-position byte sweeps through text/binary/Value/Scan, and wrong-length / malformed inputs. Non-trivial: a (NetID, DevAddr) pair whose result was compared with the rule; every pair is distinct by construction of the product."
 	c11History(r)
-	r.Assume("DevAddr dimension is a 16-value alphabet (zero, ones, alternating, one per type prefix, low/high NwkAddr bits); SetAddrPrefix reads the old address only through a mask, which the bit-flip checks pin for every bit position")
+	r.Assume("DevAddr dimension is a 40-value alphabet (every type prefix 0..7 and none x remaining bits all-one, both alternating patterns, all-zero; four mixed values)")
 
-	devAddrs := []uint32{0x00000000, 0xFFFFFFFF, 0xAAAAAAAA, 0x55555555, 0x01020304, 0x80000001, 0xC0000002, 0xE0000004, 0xF0000008, 0xF8000010, 0xFC000020, 0xFE000040, 0x00FFFFFF, 0x7F000000, 0x0000007F, 0x12345678}
+	// previous addresses: every type prefix (0..7 and the all-ones "no type" prefix) x NwkID/NwkAddr bits
+	// all-one, both alternating patterns and all-zero, plus a few mixed values: which of the old bits
+	// survive must not depend on the type the old address happened to have
+	devAddrs := []uint32{0x01020304, 0x12345678, 0x00FFFFFF, 0x0000007F}
+	for t := uint(0); t <= 8; t++ {
+		n := t + 1 // prefix length: t ones and a zero
+		if t == 8 {
+			n = 8
+		}
+		prefix := uint32(0xFF) << (8 - t) & 0xFF << 24 // t leading ones
+		rest := uint32(1)<<(32-n) - 1
+		for _, fill := range []uint32{0xFFFFFFFF, 0xAAAAAAAA, 0x55555555, 0} {
+			devAddrs = append(devAddrs, prefix|fill&rest)
+		}
+	}
 
 	checkPair := func(c *engine.Case, nid uint32, old uint32) {
 		c.Eval()
